@@ -191,7 +191,10 @@ func genAnyExpr(r *rng) string {
 		return r.pick([]string{"count(//a)", "ancestor::a = '1x'", "(//b)[1] = //b", "string-join(//a, ',')", "//b[ancestor::a]", "//*[following::b]",
 			"//a[preceding::b]", "//*[descendant::a/descendant::b]", "//a[last()]", "reverse(//a)", "sum(//@k)", "boolean(//a[b])", "name(//*[2])",
 			"*[*][last()]", "//*[*][last()]", "*[@k][last()]", "count(*[*][last()]/*)", "string(*[node()][last()]/@k)", "//a[b][last()]", "a[1][last()]",
-			"//*[b[1]]", "*[*[2]]", "(*)[2]", "//*[(*)[1]]", "//*[a | b]", "*[a[@k] | b]"})
+			"//*[b[1]]", "*[*[2]]", "(*)[2]", "//*[(*)[1]]", "//*[a | b]", "*[a[@k] | b]",
+			"translate('1x1', string(@k), string(@m))", "translate(string(.), string(@k), string(@a))", "translate('x1', string(*/@k), string(*/@m))",
+			"concat(string(@k), '-', string(@m))", "contains(string(.), string(@k))", "substring-before('1x1', string(@k))", "normalize-space(string(@k))",
+			"string-join(*, string(@k))", "matches('1x', concat('^', string(@k)))", "replace('1x1', string(@k), string(@m))"})
 	}
 }
 
@@ -218,6 +221,7 @@ func genC04(g *genCtx) {
 		}
 		g.add(&Case{Kind: "hist", Doc: d, Ctx: Ref{0, -1}, Expr: e, Extra: strings.Join(ops, ";")})
 	}
+	genC04values(g)
 }
 
 var cmpOps = []string{"=", "!=", "<", "<=", ">", ">="}
@@ -246,7 +250,7 @@ func genCmpExpr(r *rng) string {
 		}
 		return r.pick(append(strLits, "string(@k)", "concat('1','0')"))
 	}
-	switch r.intn(10) {
+	switch r.intn(11) {
 	case 0, 1:
 		// number op number, node-set op number, number op node-set (all six operators);
 		// node-set op node-set is in the fragment for = and != only
@@ -272,8 +276,42 @@ func genCmpExpr(r *rng) string {
 		return genCmpExpr(r) + " " + r.pick([]string{"and", "or"}) + " " + genCmpExpr(r)
 	case 8:
 		return r.pick([]string{"true()", "false()", "true() and false()", "false() or true()", "not(true())"})
+	case 9:
+		// "and/or evaluate left to right": the right operand must see the original context even when the
+		// left operand walked away from it
+		left := r.pick([]string{
+			stepStr(nil, r.pick(axes12), r.pick(nodeTests)) + " = " + r.pick(strLits),
+			"count(" + stepStr(nil, r.pick(axes12), r.pick(nodeTests)) + ") " + r.pick([]string{">", "=", "<"}) + " " + r.pick([]string{"0", "1"}),
+			"not(" + stepStr(nil, r.pick(axes12), r.pick(nodeTests)) + ")",
+			"count(" + r.pick([]string{"a", "b", "*"}) + "[" + r.pick([]string{"a", "b", "*", "@k"}) + "]) > 0",
+			"boolean(" + stepStr(nil, r.pick([]string{"following", "preceding", "following-sibling", "ancestor"}), "*") + ")",
+		})
+		right := r.pick([]string{"a", "b", "*", "@k", ". = 'x'", "text()", "count(*) > 0", "../a", "node()"})
+		return left + " " + r.pick([]string{"and", "or"}) + " " + right
 	default:
 		return genFlatPath(r) + " " + r.pick(cmpOps) + " " + r.pick(numLits)
+	}
+}
+
+// per-expression caches keyed by argument *values*: documents whose attributes make different argument
+// tuples that look alike when concatenated, and histories that visit them in turn
+func genC04values(g *genCtx) {
+	r := g.r
+	pairs := [][2]string{{"ab", "c"}, {"a", "bc"}, {"1x", ""}, {"1", "x"}, {"", "1x"}, {"x", "1"}, {"abc", ""}, {"", "abc"}}
+	exprs := []string{"translate(string(@v), string(@k), string(@m))", "translate('abcab1x', string(@k), string(@m))", "concat(@k, @m)", "replace(string(@v), string(@k), string(@m))",
+		"substring-before(concat(@k, '|', @m), '|')", "string-join(@*, '')", "contains(concat(@k, @m), string(@v))", "starts-with(string(@v), string(@k))"}
+	for i := 0; i < g.scale(400, 4000); i++ {
+		d := Doc{{Depth: 0, Kind: 'r'}}
+		n := 2 + r.intn(4)
+		for j := 0; j < n; j++ {
+			p := pairs[r.intn(len(pairs))]
+			d = append(d, Rec{Depth: 1, Kind: 'e', Name: "e", Attrs: []Attr{{Name: "v", Val: r.pick([]string{"abcab", "1x1", "ab", "x1"})}, {Name: "k", Val: p[0]}, {Name: "m", Val: p[1]}}})
+		}
+		var ops []string
+		for k := 0; k < 3+r.intn(6); k++ {
+			ops = append(ops, "E"+Ref{1 + r.intn(n), -1}.String())
+		}
+		g.add(&Case{Kind: "hist", Doc: d, Ctx: Ref{0, -1}, Expr: r.pick(exprs), Extra: strings.Join(ops, ";")})
 	}
 }
 
@@ -618,6 +656,13 @@ func joinTokens(toks []string, sep func(i int) string) string {
 
 // genAbbrevPair returns an abbreviated path and its expansion.
 func genAbbrevPair(r *rng) (string, string) {
+	if r.chance(1, 5) {
+		// FilterExpr '//' RelativeLocationPath:  (E)//t  =  (E)/descendant-or-self::node()/t
+		head := r.pick([]string{"(" + genPathPF(r, 1, nodeTests) + ")", "(" + genFilteredPath(r, 0) + ")", "(" + genPathPF(r, 1, nodeTests) + ")[" + genBoolPred(r, 0) + "]", "(.)", "(//a | //b)"})
+		t := r.pick([]string{"a", "b", "*", "node()", "text()", "@k"})
+		tail := r.pick([]string{"", "/..", "/@*", "[1]"})
+		return head + "//" + t + tail, head + "/descendant-or-self::node()/" + t + tail
+	}
 	var ab, ex strings.Builder
 	switch r.intn(3) {
 	case 1:
@@ -714,7 +759,11 @@ func genC12(g *genCtx) {
 		case 5:
 			e = r.pick([]string{"a", "*"}) + "[" + r.pick(posPreds) + "]/" + r.pick([]string{"b", "*", "@*"})
 		case 6:
-			e = "reverse(" + genFlatPath(r) + ")"
+			if r.chance(1, 2) {
+				e = "reverse(" + stepStr(nil, r.pick(axes12), r.pick(nodeTests)) + ")"
+			} else {
+				e = "reverse(" + genFlatPath(r) + ")"
+			}
 		case 7:
 			e = "count(" + r.pick([]string{genFlatPath(r), genPathPF(r, 2, nodeTests), genFilteredPath(r, 0)}) + ")"
 		case 8:
@@ -723,6 +772,27 @@ func genC12(g *genCtx) {
 			e = r.pick([]string{genPathPF(r, 2, nodeTests), genFilteredPath(r, 1), genPositional(r)})
 		}
 		g.add(&Case{Kind: "iter", Doc: d, Ctx: pickNodeCtx(r, d), Expr: e, Extra: fmt.Sprint(r.intn(6))})
+	}
+	// reverse(E) yields E's sequence reversed, count(E) its length: every axis, flat paths, filtered paths
+	for i := 0; i < g.scale(6000, 60000); i++ {
+		d := pool[r.intn(len(pool))]
+		ctx := pickNodeCtx(r, d)
+		var x string
+		switch r.intn(4) {
+		case 0:
+			x = stepStr(nil, r.pick(axes12), r.pick(nodeTests))
+		case 1:
+			x = genFlatPath(r)
+		case 2:
+			x = genPathPF(r, 2, nodeTests)
+		default:
+			x = genFilteredPath(r, 0)
+		}
+		if r.chance(1, 2) {
+			g.add(&Case{Kind: "meta", Doc: d, Ctx: ctx, Expr: "reverse(" + x + ")", Extra: "rev;" + ctx.String() + ";" + hx(x)})
+		} else {
+			g.add(&Case{Kind: "meta", Doc: d, Ctx: ctx, Expr: "count(" + x + ")", Extra: "cnt;" + ctx.String() + ";" + hx(x)})
+		}
 	}
 }
 
@@ -799,9 +869,17 @@ func genC13(g *genCtx) {
 		case 3, 4, 5:
 			// relative path at n == addr(n)/path from the root
 			var p string
-			if r.chance(1, 2) {
+			switch r.intn(5) {
+			case 0, 1:
 				p = genPathPF(r, 1+r.intn(2), nodeTests)
-			} else {
+			case 2:
+				p = r.pick([]string{"self::*", "self::node()", "self::a", ".", "(.)"}) + "[" +
+					r.pick([]string{genBoolPred(r, 1), r.pick([]string{"a", "b", "*"}) + "[" + r.pick([]string{"a", "b", "*", "@k"}) + "]", "following::*", "preceding::node()", "following-sibling::*[1]"}) + "]" +
+					r.pick([]string{"", "/a", "/*", "/@*", "/.."})
+				if strings.HasPrefix(p, ".[") {
+					p = "self::node()" + p[1:]
+				}
+			default:
 				p = genFilteredPath(r, 1)
 			}
 			if strings.HasPrefix(p, "/") || strings.HasPrefix(p, "(") {
@@ -864,14 +942,19 @@ func genC14(g *genCtx) {
 			kind = "eval"
 			e = "count(//" + r.pick(qn) + ")"
 		case 6:
-			e = "//*[" + r.pick([]string{"name()", "local-name()", "namespace-uri()"}) + " = " + r.pick([]string{"'a'", "'p:a'", "'urn:p'", "''", "'q:a'", "'b'"}) + "]"
+			if r.chance(1, 2) {
+				// a prefixed test directly followed by an operator name
+				e = "//*[" + r.pick(qn) + " " + r.pick([]string{"and", "or"}) + " " + r.pick(qn) + "]"
+			} else {
+				e = "//*[" + r.pick([]string{"name()", "local-name()", "namespace-uri()"}) + " = " + r.pick([]string{"'a'", "'p:a'", "'urn:p'", "''", "'q:a'", "'b'"}) + "]"
+			}
 		default:
 			e = genPathPF(r, 2, qn)
 		}
 		g.add(&Case{Kind: kind, Doc: d, Ctx: pickCtx(r, d), NS: ns, NoNS: nons, Expr: e})
 	}
 	// compile-only: unbound prefixes must be errors with a map, fine without
-	for _, e := range []string{"p:a", "//q:b/@p:k", "x:a", "a/x:*", "zz:a[1]", "a[zz:b]", "count(zz:a)"} {
+	for _, e := range []string{"p:a", "//q:b/@p:k", "x:a", "a/x:*", "zz:a[1]", "a[zz:b]", "count(zz:a)", "a[zz:b and p:a]", "//*[p:a or zz:b]", "zz:a div 2", "a[zz:b mod 2 = 1]", "p:a and zz:b"} {
 		for _, m := range maps {
 			g.add(&Case{Kind: "compile", NS: m, Expr: e})
 		}
